@@ -251,7 +251,7 @@ def run_phase(ctx):
     base = "SPECIFICATION Spec\nCONSTANTS\n  MaxLen = {ml}\n  MaxChoices = {mc}\n"
     ctx.tlc("MC_Compound", "run.cfg", extra_files={"run.cfg": base.format(ml=2, mc=2) + "CONSTRAINT MCOnly\nINVARIANT InvInjective\nINVARIANT InvDetermined\nCHECK_DEADLOCK FALSE\n"},
             label="MC_Compound contract: injective and determined, <= 2 choices", timeout=3000)
-    res = ctx.tlc("MC_Compound", "run.cfg", workers=1, simulate=f"num={ctx.pick(100, 20000)}", depth=9,
+    res = ctx.tlc("MC_Compound", "run.cfg", workers=1, simulate=f"num={ctx.pick(100, 1500)}", depth=9,
                   extra_files={"run.cfg": base.format(ml=3, mc=3) + "CONSTRAINT Emit\nCHECK_DEADLOCK FALSE\n"},
                   label="Gen_Compound models and value lists", tags=("CMPD",), timeout=3000)
     seen = set()
